@@ -20,6 +20,7 @@ CheckOf(e) ==
     [] e.e = "Fwd" -> FwdCheck(e)
     [] e.e = "Uri" -> UriCheck(e)
     [] e.e = "Client" -> ClientCheck(e)
+    [] e.e = "Reopen" -> ReopenCheck(e)
     [] e.e = "Call" -> ECallCheck(e)
     [] e.e = "SinkRecv" -> ERecvCheck(e)
     [] e.e = "Reply" -> EReplyCheck(e)
